@@ -148,6 +148,13 @@ def one(ctx, dn):
         H3 = json_graph.node_link_graph(b2, directed=arg, attrs=attrs)
         ctx.expect("directed-arg", (H3.is_directed(), type(H3) is (dn.DynDiGraph if arg else dn.DynGraph)),
                    (arg, True), dict(argument=arg, key_present=False))
+    if not directed:
+        # neither the data nor the caller says: the documented default (directed=False) applies
+        b3 = json.loads(text)
+        del b3["directed"]
+        H4 = json_graph.node_link_graph(b3) if idkey == "id" else json_graph.node_link_graph(b3, attrs=attrs)
+        ctx.expect("directed-arg", (H4.is_directed(), type(H4) is dn.DynGraph), (False, True),
+                   dict(argument="omitted", key_present=False))
     ctx.nontrivial(m.state_key(), idkey)
     if len(ctx.samples) < 3:
         ctx.sample(dict(ctx.case, json=text[:400]))
